@@ -295,6 +295,21 @@ def analysis_synthesis(rep):
              and isinstance(x.value.op, ast.Add)
              and unparse(x.targets[0]) == unparse(x.value.left)]
     if len(adds) + len(plain) != 1:
+        # ... perhaps it sits under a test inside the (l, m) loops: a mode that is added only
+        # when some condition on its coefficient holds is not the synthesis of the property
+        deep = [x for st_ in b2 for x in ast.walk(st_)
+                if (isinstance(x, ast.AugAssign) and isinstance(x.op, ast.Add))
+                or (isinstance(x, ast.Assign) and isinstance(x.value, ast.BinOp)
+                    and isinstance(x.value.op, ast.Add)
+                    and unparse(x.targets[0]) == unparse(x.value.left))]
+        guards = [g for g in b2 if isinstance(g, ast.If)]
+        if len(deep) == 1 and guards:
+            rep.violation("analysis-synthesis", key + "::synthesis",
+                          "the reconstruction adds the (l, m) term only under the test `"
+                          + unparse(guards[0].test)[:60] + "`: every mode must be added, "
+                          "whatever the value of its coefficient (an absolute tolerance drops "
+                          "small-amplitude fields)", node=guards[0])
+            return
         raise AnalysisError("sYlm_reconstruct: the accumulation statement was not found")
     stx = (adds + plain)[0]
     ev, env = body_env(re_, el2, m2, b2, stx)
